@@ -870,12 +870,22 @@ def atoms_set(b, n):
     return {(a, p) for a, p, _ in qq.guard_atoms(b, n)}
 
 
-@RULES.rule("R1.1", "helper definitions are requested wherever their names are emitted", floor=40)
+@RULES.rule("R1.1", "helper definitions are requested wherever their names are emitted", floor=58)
 def r1_1(rep):
     """Breaks: dropping `result.saw_incomplete_array()` from FieldData::codegen makes `struct S {int n; int a[];};`
     emit `pub a: __IncompleteArrayField<c_int>` without the definition (E0412).  With --enable-cxx-namespaces a
     flag that `CodegenResult::inner` does not merge into its parent leaves `root::__BindgenUnionField` undefined
-    for `union U {int a; float b;};` with --default-non-copy-union-style bindgen_wrapper."""
+    for `union U {int a; float b;};` with --default-non-copy-union-style bindgen_wrapper.
+
+    Everything is derived: helpers are the `__[A-Z]..` names that some quote! emits after `struct`; the storage of a
+    helper is what guards (or, for the keyed opaque arrays, what is iterated by) its definer in the root-module
+    branch; recorders are the actions that set that storage.  A use site must execute a recorder under a guard it
+    implies, in its own function or in every direct caller (two levels).  For the ObjC / block import headers
+    (`saw_objc`, `saw_block`: no `__Helper` name) only the flag protocol is checked (recorded somewhere, folded by
+    `inner`, read in the root-module branch): their need is recorded when the ObjC builtin / interface item itself is
+    generated, which relies on the allowlist closure (C09), not on the emission site.
+    `CodegenResult` fields are classified exactly: returned / constructor-shared / consumed on the top-level result
+    (must be folded by `inner`) / module-scoped by design (MODULE_SCOPED, must have no top-level consumer)."""
     prog = rep.prog
     hm = HelperModel(rep)
     rep.need(hm.definers, "a function whose quote! emits `struct __<Helper>`")
@@ -1095,7 +1105,6 @@ def root_consumers(prog, hm):
         for n in b.nodes:
             if n["k"] == "Field" and n.get("adt") == CR and not is_cr_method:
                 atoms = qq.guard_atoms(b, n)
-                par = b.parent[n["_i"]]
                 cond_of_root = any(a[1] and "BindgenContext::root_module" in a[0] and "==" in a[0] for a in atoms)
                 if cond_of_root:
                     note(n["f"], "read in the root-module branch of %s" % short(p))
@@ -1137,7 +1146,9 @@ def _enclosing_closure(b, n):
     return None
 
 
-# CodegenResult fields that are deliberately per-module, with the reason.
+# CodegenResult fields that are deliberately per-module, with the reason.  The table is cross-checked: a field listed
+# here must have no consumer on the top-level result (root_consumers), and a field without such a consumer that is
+# neither folded into the parent nor listed here is reported (a new field has to be classified).
 MODULE_SCOPED = {
     "items_seen": "an item is generated by exactly one module scope; the set only prevents a second visit inside that scope",
     "functions_seen": "Rust item names need to be unique per module only; each nested result is exactly one `pub mod`",
@@ -1275,7 +1286,7 @@ def _pat_lits(p):
     return []
 
 
-@RULES.rule("R1.2", "rust_mangle renames every keyword / bare primitive name and replaces the characters it detects", floor=75)
+@RULES.rule("R1.2", "rust_mangle renames every keyword / bare primitive name and replaces the characters it detects", floor=88)
 def r1_2(rep):
     """Breaks: deleting `"gen" |` from the table turns `int gen;` / `struct S { int gen; };` into
     `pub static mut gen` / `pub gen: c_int`, which edition 2024 rejects; deleting `"u8" |` lets
@@ -1310,10 +1321,13 @@ def r1_2(rep):
                     if prev and prev[0] == "p" and prev[1] in ("colon2", "dot"):
                         continue
                     emitted.setdefault(t[1], pb.loc(t[2]))
-    for cb, c in ix.callers_of("codegen::utils::primitive_ty"):
-        v = strip(c["args"][-1])
-        if v.get("k") == "Lit" and v.get("v") in prim:
-            emitted.setdefault(v["v"], cb.loc(c))
+    pv = Prov(ix)
+    for rb, rn, ctor in ix.raw_sites:
+        if rb.path in (RUST_IDENT, RUST_IDENT_RAW) or rb.path in EXEMPT_FUNCTIONS:
+            continue
+        for a in pv.of(rb, rn["args"][0]):
+            if len(a) == 1 and a[0][0] in ("lit", "const") and a[0][1] in prim:
+                emitted.setdefault(a[0][1], rb.loc(rn))
     rep.need(emitted, "primitive type names emitted by quote! sites")
     for w, where in sorted(emitted.items()):
         rep.check(w in words, "emitted-primitive:" + w,
@@ -1396,25 +1410,17 @@ def qq_atoms_below(b, n, top):
 
 
 def _only_or(cond, hits, b):
-    """every hit is reachable from cond through `||` (and matches!/parentheses) only."""
-    ok = True
+    """every hit is reachable from cond through `||` (and brace-only blocks) only."""
     for h in hits:
-        p = b.parent[h["_i"]]
         x = h
         while x is not cond:
+            p = b.parent[x["_i"]]
             if p is None:
                 return False
-            if p["k"] == "Binary" and p["op"] == "||":
-                pass
-            elif p["k"] in ("Block", "AddrOf", "Match") and x is h and p["k"] == "Match":
-                pass
-            elif p["k"] == "Block" and not p.get("stmts"):
-                pass
-            else:
-                ok = False
+            if not ((p["k"] == "Binary" and p["op"] == "||") or (p["k"] == "Block" and not p.get("stmts"))):
+                return False
             x = p
-            p = b.parent[p["_i"]]
-    return ok
+    return True
 
 
 # =====================================================================================================
@@ -1469,8 +1475,7 @@ def r1_3(rep):
                 problems.append("`%s` can spell the keyword(s) %s" % (describe(a), hit))
         rep.check(not problems, key, "; ".join(problems) if problems else
                   " | ".join(sorted({describe(a) for a in alts}))[:300], b.loc(n))
-    # mangling sites are safe whatever they are fed with; list them with their sources
-    raw_fed = 0
+    # mangling sites are safe whatever they are fed with
     for b, n in ix.mangling_sites:
         rep.ok("mangling:rust_ident@%s" % short(b.path), "rust_ident mangles its argument", b.loc(n))
     rep.note("sites", {"raw": len(ix.raw_sites), "rust_ident": len(ix.mangling_sites)})
@@ -1557,7 +1562,7 @@ def _method(prog, name):
     return [p for p, b in prog.bodies.items() if (b.fact.get("impl_self") or "").split("<")[0] == CR and p.endswith("::" + name)]
 
 
-@RULES.rule("R1.4", "seen-sets and overload counters are consulted before a function / variable / method name is emitted", floor=12)
+@RULES.rule("R1.4", "seen-sets and overload counters are consulted before a function / variable / method name is emitted", floor=14)
 def r1_4(rep):
     """Breaks: without the `seen_var` early return, `extern int bar; extern int bar;` yields two `pub static bar`
     (E0428); without the overload suffix, C++ `void f(int); void f(char);` yields two `pub fn f`; if
@@ -1599,7 +1604,6 @@ def r1_4(rep):
     # ---- overload numbers ------------------------------------------------------------------------------
     on = [c for p in _method(prog, "overload_number") for c in ix.callers_of(p)]
     rep.need(on, "calls of CodegenResult::overload_number")
-    appenders = {}
     for b, c in on:
         fn = short(b.path)
         par = b.parent[c["_i"]]
@@ -1607,8 +1611,6 @@ def r1_4(rep):
         arg = strip(c["args"][0])
         ok, detail = _suffix_applied(b, lid, arg)
         rep.check(ok, "overload:suffix@%s" % fn, detail, b.loc(c))
-        if ok:
-            appenders[b.path] = (b, lid, arg)
         # the counted (and suffixed) string is what becomes the identifier
         if arg.get("k") == "Local":
             ctors = [x for x in b.calls() if x.get("callee") in RAW_CTORS + (RUST_IDENT,) and _flows_from(b, x["args"][0], arg["id"])]
@@ -1782,7 +1784,7 @@ def _path_head(toks, i):
 # =====================================================================================================
 # R1.5  std items are named by absolute path
 # =====================================================================================================
-@RULES.rule("R1.5", "generated code names std items by absolute path (prelude names can be shadowed by C items)", floor=10)
+@RULES.rule("R1.5", "generated code names std items by absolute path (prelude names can be shadowed by C items)", floor=25)
 def r1_5(rep):
     """A prelude name (`Default`, `Result`, `Clone`, `Some`, ...) written without a leading `::` resolves to a C item
     of the same name when the header declares one: `struct Default { int x; }; struct B { char a[100]; };` with
@@ -1842,7 +1844,7 @@ def r1_5(rep):
         what = "struct/typedef/enum" if ns == "type" else "function/variable/enumerator"
         if rel:
             rep.bad("unqualified:%s(relative)@%s" % (name, short(path)),
-                    "`%s%s` is emitted as a relative path (%d place(s): %s): it resolves through whatever `%s` names in the "
+                    "`%s..::%s` is emitted as a relative path (%d place(s): %s): it resolves through whatever `%s` names in the "
                     "generated module (a C++ `namespace std` under --enable-cxx-namespaces, any C item called `%s`) and "
                     "ignores --use-core" % (rel, name, len(locs), ", ".join(locs[:4]), rel.rstrip(":"), rel.rstrip(":")), locs[0])
         else:
